@@ -942,23 +942,49 @@ def run_corpus(prop, rep, rule_fn, config='cmake-release'):
                 results.append({'case': jid, 'status': 'skipped', 'why': 'patch does not apply to the current tree'})
                 continue
             scratch_real = os.path.realpath(scratch)
-            sub = Report(prop, rep.tier)
-            sub.cur_config = config
-            broken = None
-            try:
-                prog = load_program(config, scratch_real)
-                register_identity_functions(prog)
-                rule_fn(prog, sub)
-                from .props import FLOORS
-                for rid, n in FLOORS.get(prop, {}).items():
-                    if rid in sub.rules:
-                        sub.floor(rid, n)
-            except AnalysisBroken as e:
-                broken = str(e)[:200]
-            if sub.broken and not broken:
-                broken = sub.broken[0][:200]
+            from .props import FLOORS
+
+            def analyse(view):
+                sub_ = Report(prop, rep.tier)
+                sub_.cur_config = config
+                broken_ = None
+                expanded = True
+                try:
+                    prog = load_program(config, scratch_real)
+                    if view:
+                        from .inline import inlined_view
+                        prog, done = inlined_view(prog)
+                        expanded = bool(done)
+                    register_identity_functions(prog)
+                    rule_fn(prog, sub_)
+                    for rid, n in FLOORS.get(prop, {}).items():
+                        if rid in sub_.rules:
+                            sub_.floor(rid, n)
+                except AnalysisBroken as e:
+                    broken_ = str(e)[:200]
+                if sub_.broken and not broken_:
+                    broken_ = sub_.broken[0][:200]
+                return sub_, broken_, expanded
+            sub, broken, _x = analyse(False)
+            if broken:
+                # the same fall-back as the registered check: the inlined view, accepted only when completely clean
+                sub2, broken2, expanded = analyse(True)
+                if expanded and not broken2 and not sub2.findings:
+                    sub, broken = sub2, None
             rep.instance('CORPUS')
-            if expect == 'alarm':
+            documented = None
+            if expect == 'silent':
+                try:
+                    ex = open(os.path.join(os.path.dirname(patch), 'expect.txt')).read().split('\n')
+                except OSError:
+                    ex = []
+                if '%s analysis-broken' % prop in ex and broken and not sub.findings:
+                    documented = 'documented: no verdict (analysis-broken) on this refactoring'
+                elif '%s false-alarm' % prop in ex and sub.findings:
+                    documented = 'documented FALSE ALARM on this refactoring (not corrected, see DESIGN.md section 8)'
+            if documented:
+                ok = True
+            elif expect == 'alarm':
                 ok = bool(sub.findings)
             elif expect == 'miss':
                 ok = True          # documented miss: recorded, nothing demanded
@@ -966,7 +992,7 @@ def run_corpus(prop, rep, rule_fn, config='cmake-release'):
                 ok = not sub.findings and not broken
             rep.oblige('CORPUS', ok, {'case': jid, 'expected': expect, 'findings': len(sub.findings), 'broken': broken})
             results.append({'case': jid, 'expected': expect, 'findings': len(sub.findings), 'broken': broken,
-                            'status': 'ok' if ok else 'UNEXPECTED'})
+                            'status': (documented or 'ok') if ok else 'UNEXPECTED'})
             if not ok:
                 rep.broken.append('corpus case %s: expected %s, got %d finding(s)%s' % (
                     jid, expect, len(sub.findings), (' / ' + broken) if broken else ''))
